@@ -275,9 +275,9 @@ StepCMD ==     \* read_command / read_args / read_arg_optional / read_arg_requir
                    /\ tp' = j + 1
                    /\ stack' = Append(stack, CmdFrame("bare", 0, 0, 0, fr.tol, fr.mode, fr.mode, FALSE, t.p, 0))
                    /\ Keep
-              ELSE /\ tp' = j + 1      \* Dev_Rebrace: '{%s}' % token, coerced to a brace group with a plain str body
+              ELSE /\ tp' = j + 1      \* Dev_Rebrace: the token becomes the body of a synthesised brace group (which has no offset)
                    /\ stack' = SetTop([fr EXCEPT !.args = Append(fr.args,
-                                          Node("group", <<>>, "{", <<>>, <<>>, << TextOf("str", t.s, 0-1) >>, 0-1)),
+                                          Node("group", <<>>, "{", <<>>, <<>>, << TextN(t) >>, 0-1)),
                                         !.nreq = fr.nreq - 1])
                    /\ Keep
          ELSE /\ stack' = SetTop([fr EXCEPT !.pc = nextpc]) /\ UNCHANGED tp /\ Keep
